@@ -59,8 +59,8 @@ pub mod tokio {
     #[verifier::external_body]
     pub fn sleep(d: Duration, Tracked(p): Tracked<&mut PollGhost>)
         requires
-            dur_ns(d) <= crate::block_watcher::POLL_INTERVAL__ns(),   // #no_wait_longer_than_the_poll_interval [C20]
-            old(p).sleeps == old(p).polls,                            // #every_wakeup_is_followed_by_a_poll [C20]
+            dur_ns(d) <= crate::block_watcher::POLL_INTERVAL__ns(),   // #no_wait_longer_than_the_poll_interval [C20,C04]
+            old(p).sleeps == old(p).polls,                            // #every_wakeup_is_followed_by_a_poll [C20,C04]
         ensures *final(p) == (PollGhost { sleeps: old(p).sleeps + 1, ..*old(p) }),
     { unimplemented!() }
     }
